@@ -247,7 +247,9 @@ func (rm *RequestManager) releaseRequestTask(p peer.ID, task *peertask.Task, err
 	if !ok {
 		return
 	}
-	if _, ok := err.(hooks.ErrPaused); ok {
+	// a request that was cancelled while its task was running must not be
+	// parked as paused: nothing would ever terminate it
+	if _, ok := err.(hooks.ErrPaused); ok && ipr.ctx.Err() == nil {
 		ipr.state = graphsync.Paused
 		return
 	}
